@@ -190,6 +190,56 @@ def r3_canonical_key(chk, prog):
                       'passed; a constraint naming the other key form is missed')
 
 
+def r3_canonical_constraint_lists(chk, prog, rule='R3'):
+    """... and the other side of the match: the argument list of a handler constraint (all_of / any_of / one_of) is
+    stored with the COMPLETE key of every argument it names - Handler::validArguments() rebuilds the list from the
+    key of the argument object the lookup found, not from the text that was given (which may be one key form only, or
+    an abbreviation: the constraint would never recognise the argument when it is used)"""
+    f = prog.one('celma::prog_args::Handler', 'validArguments')
+    found = set()          # locals holding the argument object of the lookup
+    for x in f.walk():
+        for d in (x.get('decls', []) if x.get('k') == 'DeclStmt' else []):
+            if isinstance(d.get('init'), dict) and any(c.get('k') in CALL_KINDS and callee_is(c, 'findArg')
+                                                      for c in walk(d['init'])):
+                found.add(d['name'])
+    chk.require(found, 'validArguments: lookup of the listed argument not found')
+
+    def from_found_key(e, depth=0):
+        if any(c.get('k') in CALL_KINDS and callee_is(c, 'TypedArgBase::key') and any(
+                mentions_var(c, v) for v in found) for c in walk(e)):
+            return True
+        e0 = strip_all_casts(e)
+        if e0.get('k') == 'DeclRefExpr' and e0['ref'].get('sto') == 'local' and depth < 2:
+            for x in f.walk():
+                for d in (x.get('decls', []) if x.get('k') == 'DeclStmt' else []):
+                    if d.get('did') == e0['ref'].get('did') and isinstance(d.get('init'), dict):
+                        return from_found_key(d['init'], depth + 1)
+        return False
+    target = None
+    for x in f.walk():
+        if x.get('k') == 'CXXOperatorCallExpr' and x.get('op') == '=' and call_args(x) and \
+                strip_all_casts(call_args(x)[0]).get('ref', {}).get('sto') == 'param':
+            r = strip_all_casts(call_args(x)[1])
+            if r.get('k') == 'DeclRefExpr':
+                target = r['ref'].get('name')
+    chk.require(target is not None, 'validArguments: the rebuilt list is not assigned to the parameter')
+    n = 0
+    for c in f.calls():
+        if c.get('k') == 'CXXMemberCallExpr' and (c.get('callee') or '').split('::')[-1] in ('append', 'operator+=',
+                                                                                          'push_back') and \
+                mentions_var(object_of(c), target) and call_args(c):
+            a = call_args(c)[0]
+            a0 = strip_all_casts(a)
+            if a0.get('k') == 'StringLiteral' or any(y.get('k') == 'StringLiteral' for y in walk(a)) and \
+                    not any(y.get('k') == 'DeclRefExpr' for y in walk(a)):
+                continue                      # the separator
+            n += 1
+            chk.check(from_found_key(a), rule, f.name, 'a handler constraint stores the complete key of every argument it '
+                      'names', f.loc(c), 'the list is rebuilt from the text as given (one key form or an abbreviation): '
+                      'the constraint does not recognise the argument when it is used')
+    chk.require(n >= 1, 'validArguments: no key is appended to the rebuilt list')
+
+
 def is_exempt_assign(f):
     for k, why in EXEMPT_ASSIGN.items():
         if k.startswith('q:'):
@@ -903,6 +953,26 @@ def r17_disjoint_any_order(chk, prog, rule='R17'):
     chk.require(n >= 4, 'hasIntersection() of adapters of unsorted containers: %d' % n)
 
 
+def r18_constraints_activated(chk, prog, rule='R18'):
+    """requires / excludes of an argument take effect on EVERY use of the argument: TypedArgBase::assignValue() -
+    the funnel every identified argument goes through - reaches activateConstraints() on every normal path,
+    whatever the destination held before (a container that already has default content "has a value" before the
+    first use)"""
+    f = prog.one('celma::prog_args::detail::TypedArgBase', 'assignValue')
+    acts = [c for c in f.calls() if callee_is(c, 'TypedArgBase::activateConstraints')]
+    asg = [c for c in f.calls() if callee_is(c, 'assign')]
+    chk.require(asg, 'assignValue: call of assign() not found')
+    off = f.cfg.must_pass_through(lambda n_: any(n_ is c for c in acts)) if acts else ['no call']
+    chk.check(bool(acts) and not off, rule, f.name, 'the constraints of an argument are activated on every use',
+              f.loc(), 'a normal return is reachable without activateConstraints()')
+    # ... for handler-level constraints: executeGlobalConstraints() on every identification
+    g = prog.one('celma::prog_args::Handler', 'handleIdentifiedArg')
+    ex = [c for c in g.calls() if callee_is(c, 'Handler::executeGlobalConstraints')]
+    off2 = g.cfg.must_pass_through(lambda n_: any(n_ is c for c in ex)) if ex else ['no call']
+    chk.check(bool(ex) and not off2, rule, g.name, 'the handler constraints see every identified argument', g.loc(),
+              'a normal return is reachable without executeGlobalConstraints()')
+
+
 def run(chk):
     prog, units = rules.prog_args_program()
     chk.units = units
@@ -925,6 +995,7 @@ def run(chk):
     r1_end_checks(chk, prog)
     r2_identification(chk, prog)
     r3_canonical_key(chk, prog)
+    r3_canonical_constraint_lists(chk, prog)
     r4_check_before_convert(chk, prog)
     r5_unknown(chk, prog)
     r6_cardinality(chk, prog)
@@ -950,5 +1021,7 @@ def run(chk):
     _c06.r3_tuple_element_index(chk, prog, rule='R16')
     chk.rule('R17', 'the disjoint constraint is decided for values in any order', 4)
     r17_disjoint_any_order(chk, prog)
+    chk.rule('R18', 'argument and handler constraints are activated on every use of an argument', 2)
+    r18_constraints_activated(chk, prog)
     from . import c02_shapes
     c02_shapes.run(chk, prog)
